@@ -1,22 +1,49 @@
 #!/usr/bin/env python3
-"""Prints the markdown table of independently written breaking changes (seeded/*/meta.json)."""
-import json, os, glob
+"""Prints the markdown tables of DESIGN.md section 12 from seeded/*/meta.json and
+sensitivity/RESULTS.md."""
+import glob
+import json
+import os
+
 HERE = os.path.dirname(os.path.dirname(os.path.abspath(__file__)))
-rows = []
-for mp in sorted(glob.glob(os.path.join(HERE, "seeded", "*", "meta.json"))):
-    m = json.load(open(mp))
-    sid = m["id"]
-    notes = ""
-    np_ = os.path.join(os.path.dirname(mp), "notes.md")
-    needs = m.get("needs", "")
-    init = m.get("initial_evaluation") or {}
-    first = "caught" if (init.get("caught_by") if init else m.get("caught_by")) else "missed"
-    now = "caught" if m.get("caught_by") else "MISSED"
-    classes = []
-    for c, v in (m.get("checks") or {}).items():
-        classes += [x for x in v.get("classes", []) if x.islower() and "_" in x]
-    rows.append((sid, m["property"], m.get("what", ""), needs, "yes" if m.get("demo_confirms") else "no", m.get("pinned_suite_passed_failed", ""), first, now, ", ".join(sorted(set(classes))[:5])))
-print("| id | property | change | needs to manifest | demo confirmed | pinned suite | first run | now | violation classes |")
-print("|---|---|---|---|---|---|---|---|---|")
-for r in rows:
-    print("| " + " | ".join(str(x) for x in r) + " |")
+
+
+def classes_of(checks):
+    out = []
+    for _c, v in (checks or {}).items():
+        out += [x for x in v.get("classes", []) if x.islower() and "_" in x]
+    return sorted(set(out))
+
+
+def first_status(m):
+    """How the change fared against the checks as they were when its author was
+    started (round 1: the recorded first evaluation)."""
+    b = m.get("baseline_evaluation")
+    if b:
+        return ("caught" if b.get("caught_by") else "missed"), b.get("verif_commit", "")
+    i = m.get("initial_evaluation")
+    if i:
+        return ("caught" if i.get("caught_by") else "missed"), i.get("verif_commit") or "b399ebd"
+    return ("caught" if m.get("caught_by") else "missed"), m.get("verif_commit", "")
+
+
+def main():
+    rows = []
+    n_first = n_now = 0
+    for mp in sorted(glob.glob(os.path.join(HERE, "seeded", "*", "meta.json"))):
+        m = json.load(open(mp))
+        first, at = first_status(m)
+        now = "caught" if m.get("caught_by") else "MISSED"
+        n_first += first == "caught"
+        n_now += now == "caught"
+        demo = "yes" if m.get("demo_confirms") else ("by hand" if m.get("demo_note") else "no")
+        rows.append((m["id"], m.get("what", ""), m.get("needs", ""), demo, first, now, ", ".join(classes_of(m.get("checks"))[:4])))
+    print("%d changes; caught by the checks as they were when the change was written: %d; caught now: %d.\n" % (len(rows), n_first, n_now))
+    print("| id | change | needs to manifest | demo confirmed | first | now | violation classes (now) |")
+    print("|---|---|---|---|---|---|---|")
+    for r in rows:
+        print("| " + " | ".join(str(x).replace("|", "\\|").replace("\n", " ") for x in r) + " |")
+
+
+if __name__ == "__main__":
+    main()
